@@ -2,3 +2,5 @@ import Lean.Meta.Tactic.Simp.RegisterCommand
 /- the simp set `outm`: the `*_apply` lemmas of PelProofs/TieDirModes.lean that let `simp` run a program of the output monad -/
 /-- lemmas that run a program of the output monad `OutM` on a symbolic state -/
 register_simp_attr outm
+/-- the dictionary keys of `parsePELSummary` as code points -/
+register_simp_attr pykeys
